@@ -85,7 +85,32 @@ theorem c20_gate_disabled (init : Bool) (pre mid post : List GateOp)
   simp only [lastToggle]
   rw [lastToggle_registers mid false hmid]
 
+/-- the mirror image: after `enable` every registration is accepted until the next `disable` -/
+theorem c20_gate_enabled (init : Bool) (pre mid post : List GateOp)
+    (hmid : ∀ o ∈ mid, o = GateOp.register) :
+    (gateTrace init (pre ++ GateOp.enable :: mid ++ GateOp.register :: post))[(pre ++ GateOp.enable :: mid).length]? =
+      some (some true) := by
+  have hidx : (pre ++ GateOp.enable :: mid ++ GateOp.register :: post)[(pre ++ GateOp.enable :: mid).length]? =
+      some GateOp.register := by
+    rw [List.getElem?_append_right (Nat.le_refl _)]; simp
+  rw [c20_gate init _ _ hidx, List.take_left' rfl, lastToggle_append]
+  simp only [lastToggle]
+  rw [lastToggle_registers mid true hmid]
+
+/-- every call of a history has exactly one outcome (no call is dropped or answered twice) -/
+theorem c20_gate_length (init : Bool) (h : List GateOp) : (gateTrace init h).length = h.length := by
+  induction h generalizing init with
+  | nil => rfl
+  | cons o rest ih => simp [gateTrace, ih]
+
+/-- the flag the gate ends with depends on the toggles only: registrations (accepted or refused) never change it -/
+theorem c20_gate_register_neutral (init : Bool) (a b : List GateOp) :
+    lastToggle init (a ++ GateOp.register :: b) = lastToggle init (a ++ b) := by
+  rw [lastToggle_append, lastToggle_append]; rfl
+
 example : gateTrace false [.disable, .register] = [none, some false] := by decide
+example : (gateTrace false ([.disable] ++ GateOp.enable :: [.register] ++ GateOp.register :: [.disable]))[3]? =
+    some (some true) := c20_gate_enabled false [.disable] [.register] [.disable] (by decide)
 example : ([GateOp.enable] : List GateOp)[0]? = some GateOp.enable ∧ GateOp.enable ≠ GateOp.register := by decide
 example : ∀ o ∈ [GateOp.register, GateOp.register], o = GateOp.register := by decide
 example : (gateTrace true ([.enable] ++ GateOp.disable :: [.register, .register] ++ GateOp.register :: [.enable]))[4]? =
@@ -286,4 +311,4 @@ example : specOp ['/', 'a', 'p', 'i', '/', 's', 't', 'o', 'r', 'e', '/', 'k', 'e
 
 end Liquer.C20
 
--- OBLIGATIONS: Liquer.C20.c20_gate Liquer.C20.c20_gate_toggle Liquer.C20.c20_gate_disabled Liquer.C20.c20_wire Liquer.C20.c20_serve_never_2xx_on_failure Liquer.C20.c20_serve_2xx Liquer.C20.c20_serve_faithful Liquer.C20.c20_routes Liquer.C20.c20_histories
+-- OBLIGATIONS: Liquer.C20.c20_gate Liquer.C20.c20_gate_toggle Liquer.C20.c20_gate_disabled Liquer.C20.c20_wire Liquer.C20.c20_serve_never_2xx_on_failure Liquer.C20.c20_serve_2xx Liquer.C20.c20_serve_faithful Liquer.C20.c20_routes Liquer.C20.c20_histories Liquer.C20.c20_gate_enabled Liquer.C20.c20_gate_length Liquer.C20.c20_gate_register_neutral
